@@ -392,6 +392,33 @@ def r8f(fb, rep):
     rep.floor(R, "extern-function constructions in deserialisation code", n, 1)
 
 
+def r8g(fb, rep):
+    """sibling agreement of the two Executable stages: a precompiled module is *evaluated* the same way as a compiled one"""
+    R = "R8g"
+    rep.rule(R, "Precompiled::run_expr evaluates the module closure with the same top-level evaluator as the source path (CompileValue::run_expr)")
+    EV = ("call_thunk_top", "call_thunk", "execute_io_top", "execute_io", "call_function", "resume")
+
+    def evaluators(sub):
+        out = set()
+        for bid, b in fb.pre.items():
+            if sub in bid and "::run_expr" in bid:
+                for c in b.calls():
+                    nm = c.res.rsplit("::", 1)[-1]
+                    if nm in EV and "ThreadInternal" in c.res:
+                        out.add(nm)
+        return out
+    src = evaluators("compiler_pipeline::CompileValue<")
+    pre = evaluators("compiler_pipeline::Precompiled<")
+    if not src or not pre:
+        rep.anchor_lost(R, "run_expr of CompileValue (%s) / Precompiled (%s)" % (sorted(src), sorted(pre)))
+        return
+    if pre <= src and "call_thunk_top" in pre:
+        rep.ok(R, "both stages evaluate the module closure with %s" % sorted(pre))
+    else:
+        rep.violation(R, "evaluator-differs", "Precompiled::run_expr evaluates the loaded module with %s while the source path uses %s: after a failing precompiled module the "
+                      "thread keeps its frames and the next bytecode module resumes them (a value of the wrong type)" % (sorted(pre), sorted(src)), "src/compiler_pipeline.rs")
+
+
 def run(fb, rep, tier, cfg):
     import harness
     rep.explanation = (
@@ -412,3 +439,4 @@ def run(fb, rep, tier, cfg):
     r8d(fb, rep)
     r8e(fb, rep)
     r8f(fb, rep)
+    r8g(fb, rep)
